@@ -13,7 +13,8 @@ RULE = ("(a) histories on one store: a fresh ExtendedDaemonSet with a canary str
         "canary, leftover; rotating order) and with template edits (also a second edit while a canary runs), kubectl-eds "
         "pause/unpause/validate/fail, node deletion/addition/tainting, kubelet actions, clock ticks and controller restarts; "
         "(b) single replica-set syncs on random stores with canary node lists (also naming vanished nodes), replicas as number "
-        "and percent. Every reconcile step is judged against status.canary.nodes of its own pre-state. "
+        "and percent; (c) ExtendedDaemonSet reconciles on a running canary with previously selected lists shorter, equal or "
+        "longer than the resolved replicas, followed by node churn and a second reconcile. Every reconcile step is judged against status.canary.nodes of its own pre-state. "
         "Non-trivial = the case issued a pod creation, deletion or label patch.")
 ASSUMPTIONS = [
     "the role of a replica set is a function of the parent's status as read by that sync",
@@ -43,8 +44,17 @@ def generate(rng, tier, stats):
         force = {"scenario": rng.choice(["canary", "canary", "active_with_canary", "active_with_canary", "unknown_leftover"]),
                  "open_gates": rng.random() < 0.8}
         out.append(worldgen.gen_ers_world(rng, stats, force))
+    # (c) ExtendedDaemonSet reconciles on a running canary whose previous node list is shorter, equal or LONGER than the
+    # resolved replicas (replicas lowered mid-canary, percent with node churn): the list never grows beyond the replicas
+    import p_c15
+    out += p_c15.gen_cases(rng, stats, 80 if tier == "quick" else 1200, shrink=0.5)
     return out
 
 
 def nontrivial(c, r):
-    return bool(wprop.calls_of(r, None, "Pod"))
+    return bool(wprop.calls_of(r, None, "Pod")) or p_c15_nontrivial(c, r)
+
+
+def p_c15_nontrivial(c, r):
+    import p_c15
+    return p_c15.nontrivial(c, r)
